@@ -303,10 +303,10 @@ fn run(ctx: &mut Ctx) {
                                 ctx.violation(&format!("{}: malformed CSV", what), text.chars().take(300).collect(), inputs(ctx));
                                 return;
                             };
-                            let exp_header = if bi == 0 { "serial_number,trg_time,reconstructed_x,reconstructed_y,reconstructed_z" } else { "serial_number,trg_time,input,drift_veto,scaledown,pulser,output" };
+                            // column names are not part of the property: only the number of columns is checked
                             let nexp = if bi == 0 { vexp.len() } else { sexp.len() };
-                            if hdr[2] != exp_header && !(nexp == 0 && hdr[2].is_empty()) {
-                                ctx.violation(&format!("{}: wrong CSV header", what), hdr[2].clone(), inputs(ctx));
+                            if hdr[2].split(',').count() != ncols && !(nexp == 0 && hdr[2].is_empty()) {
+                                ctx.violation(&format!("{}: CSV header does not have {} columns", what, ncols), hdr[2].clone(), inputs(ctx));
                                 return;
                             }
                             if rows.len() != nexp {
